@@ -172,19 +172,29 @@ def bounded_runs(tier, seed):
                     for pred in preds:
                         cfgs.append(dict(nprocs=nprocs, nlev=nlev, QI=qi, jac=jac, pred=pred, imex=False))
     cfgs += [dict(nprocs=2, nlev=1, QI='IE', jac=False, pred=None, imex=True), dict(nprocs=1, nlev=2, QI='LU', jac=True, pred=None, imex=True)]
+    # other quadrature types (end point by quadrature, left end point a node), other initial guesses, the explicit sweeper
+    for quad in ('LOBATTO', 'RADAU-LEFT', 'GAUSS'):
+        for guess in ('spread', 'zero'):
+            cfgs.append(dict(nprocs=2 if guess == 'spread' else 1, nlev=1, QI='PIC' if quad != 'GAUSS' else 'IE', jac=True, pred=None, imex=False, quad=quad, guess=guess, force=True))
+        cfgs.append(dict(nprocs=1, nlev=1, QI='IE', jac=True, pred=None, imex=False, quad=quad, guess='spread', explicit=True, force=True))
     if tier == 'quick':
-        cfgs = cfgs[::2]
+        cfgs = [c for i, c in enumerate(cfgs) if i % 2 == 0 or c.get('force')]
     for cf in cfgs:
         lam = -rng.rand(3) * 2.0 + 1j * rng.randn(3)
         dt = 0.1
         M = 3
         lp = dict(dt=dt, restol=1e-12, residual_type=['full_abs', 'last_abs', 'full_rel', 'last_rel'][cases % 4])
-        sp = dict(num_nodes=[M, 2] if cf['nlev'] == 2 else M, quad_type='RADAU-RIGHT', QI=cf['QI'])
+        sp = dict(num_nodes=[M, 2] if cf['nlev'] == 2 else M, quad_type=cf.get('quad', 'RADAU-RIGHT'), QI=cf['QI'], initial_guess=cf.get('guess', 'spread'))
+        if cf.get('explicit'):
+            from pySDC.implementations.sweeper_classes.explicit import explicit
+
+            sp.pop('QI')
+            lam = lam * 0.3
         if cf['imex']:
             pp = dict(lambdas_implicit=lam * 0.7, lambdas_explicit=lam * 0.3, u0=1.0)
             d = dict(problem_class=test_equation_IMEX, problem_params=pp, sweeper_class=imex_1st_order)
         else:
-            d = dict(problem_class=testequation0d, problem_params=dict(lambdas=lam, u0=1.0), sweeper_class=generic_implicit)
+            d = dict(problem_class=testequation0d, problem_params=dict(lambdas=lam, u0=1.0), sweeper_class=explicit if cf.get('explicit') else generic_implicit)
         d.update(sweeper_params=sp, level_params=lp, step_params=dict(maxiter=200))
         if cf['nlev'] == 2:
             d['space_transfer_class'] = mesh_to_mesh
@@ -221,8 +231,11 @@ def bounded_runs(tier, seed):
 def _reexports():
     from contracts.C10_fas import CycleFixedPoint, Restrict
     from contracts.C07_block import RecvFull
+    from contracts.C02_sweep import CONTRACTS as C02C
 
-    return [type(b.__name__ + '_C01', (b,), dict(prop='C01')) for b in (CycleFixedPoint, Restrict, RecvFull)]
+    ends = [c for c in C02C if c.__name__ in ('generic_implicit_compute_end_point', 'explicit_compute_end_point', 'imex_1st_order_compute_end_point',
+                                              'generic_implicit_update_nodes', 'explicit_update_nodes', 'imex_1st_order_update_nodes')]
+    return [type(b.__name__ + '_C01', (b,), dict(prop='C01')) for b in [CycleFixedPoint, Restrict, RecvFull] + ends]
 
 
 CONTRACTS = [SweepFixedPointImplicit, SweepFixedPointExplicit, SweepFixedPointIMEX] + _reexports()
